@@ -103,18 +103,31 @@ struct GranMap {
     }
 };
 
+// a dynamically scheduled work-sharing loop: iterations are handed out chunk by chunk.  Normalised to an unsigned count of
+// iterations so that the long and the unsigned long long entry points share it.
+struct WorkShare {
+    bool ull, up;
+    unsigned long long ustart, uincr; // ull loops
+    long lstart, lincr; // long loops
+    unsigned long long total, next, chunk; // iteration counts
+    bool guided;
+};
+
 struct Member {
     ucontext_t ctx;
     char* stack;
     size_t ssize;
-    int state; // 0 runnable, 1 at barrier, 2 done
+    int state; // 0 runnable, 1 at barrier, 2 done, 3 yielded inside the epoch (asked for the next chunk of a dynamic loop)
     uint64_t sig; // access-set hash of the current epoch
     bool wrote;
     int icv; // nthreads-var of this implicit task
     long singles; // single constructs this member has encountered
+    long shares; // dynamically scheduled loops this member has entered
 };
 struct Team {
     long singles_taken; // single constructs already executed by some member
+    WorkShare ws[64]; // dynamically scheduled loops of this region, by order of encounter (ring)
+    long ws_created;
     int n;
     Member* m;
     void (*fn)(void*);
@@ -615,9 +628,20 @@ void GOMP_barrier(void)
     swapcontext(&t->m[me].ctx, &t->sched);
 }
 
+static WorkShare* g_serial_ws[16]; // work shares of loops met outside an active team (serialised regions, orphaned loops)
+static int g_serial_n = 0;
+static WorkShare g_serial_store[16];
+
+static void run_parallel(void (*fn)(void*), void* data, unsigned num_threads, const WorkShare* init);
+
 void GOMP_parallel(void (*fn)(void*), void* data, unsigned num_threads, unsigned flags)
 {
     (void)flags;
+    run_parallel(fn, data, num_threads, nullptr);
+}
+
+static void run_parallel(void (*fn)(void*), void* data, unsigned num_threads, const WorkShare* init)
+{
     int n = num_threads ? (int)num_threads : g_icv;
     if (g_active)
         n = 1; // nested regions are serialised (libgomp default: one active level)
@@ -627,6 +651,13 @@ void GOMP_parallel(void (*fn)(void*), void* data, unsigned num_threads, unsigned
     if (n <= 1) {
         Frame f{0, 1, creator_icv};
         g_frames.push(f);
+        if (init) { // combined parallel loop: the work share exists before the body asks for its first chunk
+            if (g_serial_n >= 16)
+                unsupported("more than 16 nested dynamically scheduled loops");
+            g_serial_store[g_serial_n] = *init;
+            g_serial_ws[g_serial_n]    = &g_serial_store[g_serial_n];
+            g_serial_n++;
+        }
         fn(data);
         g_frames.n--;
         return;
@@ -641,12 +672,18 @@ void GOMP_parallel(void (*fn)(void*), void* data, unsigned num_threads, unsigned
     team.parent        = nullptr;
     team.parent_member = -1;
     team.singles_taken = 0;
+    team.ws_created    = 0;
+    if (init) {
+        team.ws[0]      = *init;
+        team.ws_created = 1;
+    }
     for (int i = 0; i < n; i++) {
         Member& m = team.m[i];
         m.stack   = (char*)mmap(nullptr, STACK, PROT_READ | PROT_WRITE, MAP_PRIVATE | MAP_ANONYMOUS | MAP_STACK, -1, 0);
         m.ssize   = STACK;
         m.state   = 0;
         m.icv     = creator_icv;
+        m.shares  = init ? 1 : 0; // combined parallel loop: every member is already inside work share 0
         getcontext(&m.ctx);
         m.ctx.uc_stack.ss_sp   = m.stack;
         m.ctx.uc_stack.ss_size = STACK;
@@ -684,21 +721,35 @@ void GOMP_parallel(void (*fn)(void*), void* data, unsigned num_threads, unsigned
                         order[i] = runnable[g_sched[k].order[i]];
                 }
             }
-        for (int i = 0; i < nr; i++) {
-            int id   = order[i];
-            g_member = id;
-            Frame f{id, n, team.m[id].icv};
-            g_frames.push(f);
-            if (g_audit)
-                takeSnapshot();
-            if (g_st)
-                g_st->blocks++;
-            swapcontext(&team.sched, &team.m[id].ctx);
-            if (g_audit)
-                diffSnapshot(id);
-            team.m[id].icv = g_frames[g_frames.n - 1].icv;
-            g_frames.n--;
-            g_member = -1;
+        // every runnable member runs until it reaches a barrier, ends, or asks for the next chunk of a dynamically scheduled loop;
+        // members that yielded there are resumed round-robin in the epoch's order until all are at the barrier or done
+        bool firstPass = true, again = true;
+        while (again) {
+            again = false;
+            for (int i = 0; i < nr; i++) {
+                int id = order[i];
+                if (!firstPass) {
+                    if (team.m[id].state != 3)
+                        continue;
+                    team.m[id].state = 0;
+                }
+                g_member = id;
+                Frame f{id, n, team.m[id].icv};
+                g_frames.push(f);
+                if (g_audit)
+                    takeSnapshot();
+                if (g_st)
+                    g_st->blocks++;
+                swapcontext(&team.sched, &team.m[id].ctx);
+                if (g_audit)
+                    diffSnapshot(id);
+                team.m[id].icv = g_frames[g_frames.n - 1].icv;
+                g_frames.n--;
+                g_member = -1;
+                if (team.m[id].state == 3)
+                    again = true;
+            }
+            firstPass = false;
         }
         if (g_st)
             endEpoch(&team);
@@ -804,25 +855,189 @@ void GOMP_atomic_end(void)
 {
     g_lock = 0;
 }
-void GOMP_parallel_loop_dynamic(void)
+// ---- dynamically scheduled loops (dynamic, guided; long and unsigned long long iteration variables) ----------------------
+// Inside an active team a member is suspended every time it asks for its NEXT chunk, and the suspended members are resumed
+// round-robin in the epoch's order: chunk k of a loop goes to the k-th asker.  This is one legal assignment per explored
+// permutation, not all of them (reported as such); conflicts between iterations that land on different members are found by
+// the same per-epoch access-set comparison as for static schedules.
+static bool in_active_team()
 {
-    unsupported("dynamic schedule");
+    return g_active && g_member >= 0 && !(g_frames.n && g_frames[g_frames.n - 1].num_threads == 1);
 }
-void GOMP_parallel_loop_guided(void)
+static void ws_init_long(WorkShare& w, long start, long end, long incr, long chunk, bool guided)
 {
-    unsupported("guided schedule");
+    w.ull    = false;
+    w.up     = incr > 0;
+    w.lstart = start;
+    w.lincr  = incr;
+    w.total  = 0;
+    if (incr > 0 && end > start)
+        w.total = ((unsigned long long)(end - start) + (unsigned long long)incr - 1) / (unsigned long long)incr;
+    else if (incr < 0 && end < start)
+        w.total = ((unsigned long long)(start - end) + (unsigned long long)(-incr) - 1) / (unsigned long long)(-incr);
+    w.next   = 0;
+    w.chunk  = chunk > 0 ? (unsigned long long)chunk : 1;
+    w.guided = guided;
 }
-void GOMP_loop_dynamic_start(void)
+static void ws_init_ull(WorkShare& w, bool up, unsigned long long start, unsigned long long end, unsigned long long incr,
+                        unsigned long long chunk, bool guided)
 {
-    unsupported("dynamic schedule");
+    w.ull    = true;
+    w.up     = up;
+    w.ustart = start;
+    w.uincr  = incr;
+    w.total  = 0;
+    if (up && end > start)
+        w.total = (end - start + incr - 1) / incr;
+    else if (!up && end < start) {
+        unsigned long long step = 0ull - incr;
+        w.total                 = (start - end + step - 1) / step;
+    }
+    w.next   = 0;
+    w.chunk  = chunk > 0 ? chunk : 1;
+    w.guided = guided;
 }
-void GOMP_loop_nonmonotonic_dynamic_start(void)
+static bool ws_take(WorkShare& w, unsigned long long& first, unsigned long long& count, int nthreads)
 {
-    unsupported("dynamic schedule");
+    if (w.next >= w.total)
+        return false;
+    unsigned long long c = w.chunk;
+    if (w.guided) {
+        unsigned long long g = (w.total - w.next) / (unsigned long long)(nthreads > 0 ? nthreads : 1);
+        if (g > c)
+            c = g;
+    }
+    if (c > w.total - w.next)
+        c = w.total - w.next;
+    first = w.next;
+    count = c;
+    w.next += c;
+    if (g_st)
+        g_st->dynamic_chunks++;
+    return true;
 }
-void GOMP_parallel_loop_nonmonotonic_dynamic(void)
+// the work share the calling member is in; 'enter' = a _start call (a new loop for this member)
+static WorkShare* ws_current(bool enter, const WorkShare* proto)
 {
-    unsupported("dynamic schedule");
+    if (!in_active_team()) {
+        if (enter) {
+            if (g_serial_n >= 16)
+                unsupported("more than 16 nested dynamically scheduled loops");
+            g_serial_store[g_serial_n] = *proto;
+            g_serial_ws[g_serial_n]    = &g_serial_store[g_serial_n];
+            g_serial_n++;
+        }
+        if (g_serial_n == 0)
+            unsupported("dynamic loop chunk requested outside any loop");
+        return g_serial_ws[g_serial_n - 1];
+    }
+    Team* t    = g_active;
+    Member& me = t->m[g_member];
+    if (enter) {
+        me.shares++;
+        if (t->ws_created < me.shares) { // first member to reach this loop creates it
+            t->ws[(me.shares - 1) % 64] = *proto;
+            t->ws_created                = me.shares;
+        }
+        if (t->ws_created - me.shares >= 64)
+            unsupported("a member lags more than 64 nowait dynamic loops behind");
+    }
+    return &t->ws[(me.shares - 1) % 64];
+}
+static void ws_yield()
+{
+    if (!in_active_team())
+        return;
+    Team* t        = g_active;
+    int me         = g_member;
+    t->m[me].state = 3;
+    swapcontext(&t->m[me].ctx, &t->sched);
+}
+static bool ws_next_long(WorkShare* w, long* istart, long* iend, bool yieldFirst)
+{
+    if (yieldFirst)
+        ws_yield();
+    unsigned long long f, c;
+    int nth = in_active_team() ? g_active->n : 1;
+    if (!ws_take(*w, f, c, nth)) {
+        if (!in_active_team() && g_serial_n > 0)
+            g_serial_n--; // loop finished
+        return false;
+    }
+    *istart = w->lstart + (long)f * w->lincr;
+    *iend   = w->lstart + (long)(f + c) * w->lincr;
+    return true;
+}
+static bool ws_next_ull(WorkShare* w, unsigned long long* istart, unsigned long long* iend, bool yieldFirst)
+{
+    if (yieldFirst)
+        ws_yield();
+    unsigned long long f, c;
+    int nth = in_active_team() ? g_active->n : 1;
+    if (!ws_take(*w, f, c, nth)) {
+        if (!in_active_team() && g_serial_n > 0)
+            g_serial_n--;
+        return false;
+    }
+    *istart = w->ustart + f * w->uincr;
+    *iend   = w->ustart + (f + c) * w->uincr;
+    return true;
+}
+#define MCOMP_LOOP_LONG(NAME, GUIDED)                                                                                              \
+    bool GOMP_loop_##NAME##_start(long start, long end, long incr, long chunk, long* istart, long* iend)                            \
+    {                                                                                                                              \
+        WorkShare proto;                                                                                                           \
+        ws_init_long(proto, start, end, incr, chunk, GUIDED);                                                                      \
+        return ws_next_long(ws_current(true, &proto), istart, iend, false);                                                        \
+    }                                                                                                                              \
+    bool GOMP_loop_##NAME##_next(long* istart, long* iend)                                                                         \
+    {                                                                                                                              \
+        return ws_next_long(ws_current(false, nullptr), istart, iend, true);                                                       \
+    }                                                                                                                              \
+    void GOMP_parallel_loop_##NAME(void (*fn)(void*), void* data, unsigned num_threads, long start, long end, long incr,            \
+                                   long chunk, unsigned flags)                                                                     \
+    {                                                                                                                              \
+        (void)flags;                                                                                                               \
+        WorkShare proto;                                                                                                           \
+        ws_init_long(proto, start, end, incr, chunk, GUIDED);                                                                      \
+        run_parallel(fn, data, num_threads, &proto);                                                                               \
+    }
+#define MCOMP_LOOP_ULL(NAME, GUIDED)                                                                                               \
+    bool GOMP_loop_ull_##NAME##_start(bool up, unsigned long long start, unsigned long long end, unsigned long long incr,           \
+                                      unsigned long long chunk, unsigned long long* istart, unsigned long long* iend)              \
+    {                                                                                                                              \
+        WorkShare proto;                                                                                                           \
+        ws_init_ull(proto, up, start, end, incr, chunk, GUIDED);                                                                   \
+        return ws_next_ull(ws_current(true, &proto), istart, iend, false);                                                         \
+    }                                                                                                                              \
+    bool GOMP_loop_ull_##NAME##_next(unsigned long long* istart, unsigned long long* iend)                                         \
+    {                                                                                                                              \
+        return ws_next_ull(ws_current(false, nullptr), istart, iend, true);                                                        \
+    }
+MCOMP_LOOP_LONG(dynamic, false)
+MCOMP_LOOP_LONG(nonmonotonic_dynamic, false)
+MCOMP_LOOP_LONG(guided, true)
+MCOMP_LOOP_LONG(nonmonotonic_guided, true)
+MCOMP_LOOP_ULL(dynamic, false)
+MCOMP_LOOP_ULL(nonmonotonic_dynamic, false)
+MCOMP_LOOP_ULL(guided, true)
+MCOMP_LOOP_ULL(nonmonotonic_guided, true)
+void GOMP_loop_end(void)
+{
+    GOMP_barrier();
+}
+void GOMP_loop_end_nowait(void)
+{
+}
+bool GOMP_loop_runtime_start(void)
+{
+    unsupported("schedule(runtime)");
+    return false;
+}
+bool GOMP_loop_maybe_nonmonotonic_runtime_start(void)
+{
+    unsupported("schedule(runtime)");
+    return false;
 }
 void GOMP_sections_start(void)
 {
